@@ -48,8 +48,8 @@ def check_roundtrip(dicts, fmt):
         try:
             got = mido.read_syx_file(path)
         except Exception as exc:  # noqa: BLE001
-            return [fail('read-raises', f'{fmt}: {exc!r} (file of {os.path.getsize(path)} bytes)', exc=exc_sig(exc),
-                         fmt=fmt)]
+            size = os.path.getsize(path) if os.path.exists(path) else 'no file'
+            return [fail('read-raises', f'{fmt}: {exc!r} (file: {size})', exc=exc_sig(exc), fmt=fmt)]
     if not isinstance(got, list):
         return [fail('result-type', f'{type(got).__name__}')]
     return _compare(got, _expect(dicts), f'round trip ({fmt})')
